@@ -301,6 +301,132 @@ func emitValidateCL(p *pkgInfo) (string, bool) {
 	return fmt.Sprintf("def cashLetterValidate (m : Model) (%s : CashLetter Vals) : Option (ErrClass × String) :=\n  %s\n\n", recv, body), t.ok
 }
 
+// ---- File.Validate / CashLetterIDUnique: `Option String` (the FieldName, or "ErrNilFile") ----
+
+// onlyNilGuards: a function body made of range loops and `if x == nil { return &FileError{..} }` guards only
+func onlyNilGuards(stmts []ast.Stmt) bool {
+	for _, st := range stmts {
+		switch s := st.(type) {
+		case *ast.RangeStmt:
+			if !onlyNilGuards(s.Body.List) {
+				return false
+			}
+		case *ast.IfStmt:
+			if s.Init != nil || s.Else != nil || !strings.HasSuffix(src(s.Cond), " == nil") || len(s.Body.List) != 1 {
+				return false
+			}
+			r, ok := s.Body.List[0].(*ast.ReturnStmt)
+			if !ok || len(r.Results) != 1 {
+				return false
+			}
+			if _, ok := fileErrorField(r.Results[0]); !ok {
+				return false
+			}
+		case *ast.ReturnStmt:
+			if len(s.Results) != 1 || src(s.Results[0]) != "nil" {
+				return false
+			}
+		default:
+			return false
+		}
+	}
+	return true
+}
+
+func emitValidateFile(p *pkgInfo) (string, bool) {
+	ok := true
+	var why []string
+	bad := func(f string, a ...any) { ok = false; why = append(why, fmt.Sprintf(f, a...)) }
+	var sb strings.Builder
+	// CashLetterIDUnique
+	d := p.methods["File"]["CashLetterIDUnique"]
+	uniq := "none"
+	if d == nil || d.Body == nil || len(d.Body.List) != 4 {
+		bad("filevalidate: CashLetterIDUnique not found or not of the expected length")
+	} else {
+		f := recvName(d)
+		b := d.Body.List
+		g0, ok0 := b[0].(*ast.IfStmt)
+		a1, ok1 := b[1].(*ast.AssignStmt)
+		l2, ok2 := b[2].(*ast.RangeStmt)
+		if !ok0 || !ok1 || !ok2 || src(b[3]) != "return nil" ||
+			src(g0.Cond) != f+" == nil || len("+f+".CashLetters) == 0" || len(g0.Body.List) != 1 || src(g0.Body.List[0]) != "return ErrNilFile" ||
+			a1.Tok != token.DEFINE || src(a1.Rhs[0]) != `""` || src(l2.X) != f+".CashLetters" || l2.Value == nil || len(l2.Body.List) != 3 {
+			bad("filevalidate: CashLetterIDUnique statements not recognised")
+		} else {
+			v := src(a1.Lhs[0])
+			cl := src(l2.Value)
+			id := cl + ".CashLetterHeader.CashLetterID"
+			c0, okc0 := l2.Body.List[0].(*ast.IfStmt)
+			c1, okc1 := l2.Body.List[1].(*ast.IfStmt)
+			fld := ""
+			if okc1 && len(c1.Body.List) > 0 {
+				if r, ok := c1.Body.List[len(c1.Body.List)-1].(*ast.ReturnStmt); ok && len(r.Results) == 1 {
+					fld, _ = fileErrorField(r.Results[0])
+				}
+			}
+			if !okc0 || !okc1 || src(c0.Cond) != cl+".CashLetterHeader == nil" || len(c0.Body.List) != 1 || src(c0.Body.List[0]) != "continue" ||
+				src(c1.Cond) != v+" == "+id || fld == "" || src(l2.Body.List[2]) != v+" = "+id {
+				bad("filevalidate: the loop of CashLetterIDUnique not recognised")
+			} else {
+				hid := "(((" + cl + ".header).map (·.s \"CashLetterID\")).getD [])"
+				uniq = "if decide ((" + f + ".cashLetters.length : Int) = (0 : Int)) then some \"ErrNilFile\" else\n" +
+					"  let " + v + " : Bytes := []\n" +
+					"  match (" + f + ".cashLetters.foldl (fun (st : Option String × Bytes) " + cl + " =>\n" +
+					"      match st.1 with\n      | some _ => st\n      | none =>\n" +
+					"        let " + v + " := st.2\n" +
+					"        if " + cl + ".header.isNone then st else\n" +
+					"        if (" + v + " == " + hid + ") then (some " + leanStr(fld) + ", " + v + ") else\n" +
+					"        let " + v + " := " + hid + "\n" +
+					"        (none, " + v + ")) (none, " + v + ")).1 with\n" +
+					"  | some e => some e\n  | none =>\n  none"
+			}
+		}
+		fmt.Fprintf(&sb, "def CashLetterIDUnique (%s : File Vals) : Option String :=\n  %s\n\n", f, uniq)
+	}
+	// Validate
+	d = p.methods["File"]["Validate"]
+	if d == nil || d.Body == nil {
+		bad("filevalidate: File.Validate not found")
+	} else {
+		f := recvName(d)
+		body := ""
+		for _, st := range d.Body.List {
+			switch s := st.(type) {
+			case *ast.IfStmt:
+				if s.Init == nil && src(s.Cond) == f+" == nil" {
+					continue
+				}
+				if c := errGuard(s); c != nil && len(c.Args) == 0 {
+					switch src(c.Fun) {
+					case f + ".nilRecords":
+						if nd := p.methods["File"]["nilRecords"]; nd != nil && nd.Body != nil && onlyNilGuards(nd.Body.List) {
+							continue // the model's lists hold records, not pointers
+						}
+					case f + ".CashLetterIDUnique":
+						body += "match CashLetterIDUnique " + f + " with\n  | some e => some e\n  | none =>\n  "
+						continue
+					}
+				}
+				bad("filevalidate: statement not recognised: %s", strings.SplitN(src(st), "\n", 2)[0])
+			case *ast.ReturnStmt:
+				if len(s.Results) == 1 && src(s.Results[0]) == "nil" {
+					body += "none"
+					continue
+				}
+				bad("filevalidate: statement not recognised: %s", src(st))
+			default:
+				bad("filevalidate: statement not recognised: %s", strings.SplitN(src(st), "\n", 2)[0])
+			}
+		}
+		fmt.Fprintf(&sb, "def fileValidate (%s : File Vals) : Option String :=\n  %s\n\n", f, body)
+	}
+	for _, w := range why {
+		fmt.Fprintf(os.Stderr, "OPAQUE %s\n", w)
+	}
+	return sb.String(), ok
+}
+
 func emitValidate(dir string, p *pkgInfo) {
 	var sb strings.Builder
 	sb.WriteString("/- GENERATED by harness/extract from bundle.go (Bundle.Validate and the addendum-count walks) — do not edit. -/\nimport IclModel.BuildRT\nnamespace Icl.Gen.V\nopen Icl Icl.BuildRT\n\n")
@@ -345,6 +471,11 @@ func emitValidate(dir string, p *pkgInfo) {
 	cld, clok := emitValidateCL(p)
 	sb.WriteString(cld)
 	if !clok {
+		ok = false
+	}
+	fld, flok := emitValidateFile(p)
+	sb.WriteString(fld)
+	if !flok {
 		ok = false
 	}
 	fmt.Fprintf(&sb, "/-- every statement of the Go methods had a recognised shape -/\ndef recognised : Bool := %s\n\nend Icl.Gen.V\n", leanBool(ok))
